@@ -1,4 +1,218 @@
-import IgrisModel.C04.Model
+/-
+  C05 — PROPERTY THEOREMS: the gstuff receiver on arbitrary byte streams.
+
+  "For every byte stream and every receive buffer size, the receiver never
+  stores more than capacity-1 bytes nor touches memory outside the buffer it
+  was given, and a frame that does not fit is reported as overflow rather than
+  delivered.  Whenever it reports a completed packet, the delivered bytes are
+  exactly the unescaped bytes since the last start marker minus a trailing
+  CRC-8 that matches them.  After any garbage prefix the well-formed frames
+  that follow are delivered intact - from the first one when start and stop
+  markers differ, from the second at the latest when they coincide."
+-/
+import IgrisModel.C05.Lemmas
 namespace Igris.Gstuff
-theorem placeholder_c05 : True := trivial
+open Igris.Proto Igris.C17
+
+/-! ### memory safety -/
+
+/-- never more than capacity-1 bytes in the line, in every reachable state,
+for every alphabet (well-formed or not), stream and capacity -/
+theorem recv_bounds (ctx : Ctx) (cap : Nat) (bs : List Byte) :
+    (feed ctx (Recv.init cap) bs).1.line.length ≤ cap - 1 ∧ (feed ctx (Recv.init cap) bs).1.cap = cap := by
+  have h := feed_lineOK ctx (Recv.init cap) bs (by simp [LineOK, Recv.init])
+  have hc := feed_cap ctx (Recv.init cap) bs
+  simp only [LineOK, hc] at h
+  exact ⟨h, hc⟩
+
+/-- the only buffer writes are `buf[len] = c` by `sline_putchar` (performed iff
+the line grows) and `buf[len] = 0` by `cstr()`; both indices are `< cap` in
+every reachable state (capacity ≥ 1) -/
+theorem recv_write_indices (ctx : Ctx) (cap : Nat) (hcap : 1 ≤ cap) (bs : List Byte) (c : Byte) :
+    -- terminator written by cstr()
+    (feed ctx (Recv.init cap) bs).1.line.length < cap ∧
+    -- a byte stored by newchar lands at index `old length`, which is `< cap - 1`
+    ((newchar ctx (feed ctx (Recv.init cap) bs).1 c).1.line.length =
+        (feed ctx (Recv.init cap) bs).1.line.length + 1 →
+      (feed ctx (Recv.init cap) bs).1.line.length < cap - 1) := by
+  have hb := recv_bounds ctx cap bs
+  have hn := newchar_lineOK ctx (feed ctx (Recv.init cap) bs).1 c (by simp only [LineOK, hb.2]; exact hb.1)
+  have hcap' := newchar_cap ctx (feed ctx (Recv.init cap) bs).1 c
+  refine ⟨by have := hb.1; omega, ?_⟩
+  intro hgrow
+  simp only [LineOK, hcap', hb.2] at hn
+  omega
+
+/-! ### soundness of every delivered packet -/
+
+/-- Whenever NEWPACKAGE is answered (to byte `c` after stream `bs`): `c` is the
+stop marker, a start marker was received, and the unescaping of the raw bytes
+since the LAST start marker is exactly the delivered line followed by its
+CRC-8. -/
+theorem recv_sound (ctx : Ctx) (h : ctx.WF) (cap : Nat) (bs : List Byte) (c : Byte)
+    (hn : (newchar ctx (feed ctx (Recv.init cap) bs).1 c).2 = NEWPACKAGE) :
+    c = ctx.stop ∧ ∃ since, sinceLastStart ctx.start bs = some since ∧
+      unescape ctx since =
+        some ((newchar ctx (feed ctx (Recv.init cap) bs).1 c).1.line ++
+              [strmcrc8 0xFF#8 (newchar ctx (feed ctx (Recv.init cap) bs).1 c).1.line]) := by
+  have hs := feed_sound ctx h (Recv.init cap) none bs (by simp [Sound, Recv.init])
+  exact newpackage_sound ctx _ _ c hs hn
+
+/-! ### over-long frames -/
+
+/-- a frame whose unescaped content (payload + CRC) does not fit in capacity-1
+bytes is answered with OVERFLOW and is not delivered -/
+theorem overflow_reported (ctx : Ctx) (h : ctx.WF) (r : Recv) (hr : Idle r) (p : List Byte)
+    (hcap : 1 ≤ r.cap) (hbig : r.cap < p.length + 2) :
+    OVERFLOW ∈ (feed ctx r (encode ctx p)).2 ∧ delivered ctx r (encode ctx p) = [] := by
+  -- split the unescaped content (payload ++ crc) at the capacity
+  have hlen : r.cap - 1 < (p ++ [strmcrc8 0xFF#8 p]).length := by simp; omega
+  obtain ⟨pre, x, post, hsplit, hpre⟩ : ∃ pre x post, p ++ [strmcrc8 0xFF#8 p] = pre ++ x :: post ∧
+      pre.length = r.cap - 1 := by
+    refine ⟨(p ++ [strmcrc8 0xFF#8 p]).take (r.cap - 1), (p ++ [strmcrc8 0xFF#8 p])[r.cap - 1],
+      (p ++ [strmcrc8 0xFF#8 p]).drop (r.cap - 1 + 1), ?_, ?_⟩
+    · rw [List.getElem_cons_drop, List.take_append_drop]
+    · rw [List.length_take]; omega
+  rw [encode_eq]
+  unfold frameBody
+  rw [hsplit]
+  simp only [List.flatMap_append, List.flatMap_cons, List.append_assoc]
+  -- start marker, then the first cap-1 bytes fill the line
+  obtain ⟨e1, a1⟩ := feed_stuffed ctx h pre { r with state := .s1, crc := 0xFF#8, line := [] } rfl
+    (by simp; omega)
+  have d1 := delivered_nil_of_statuses _ _ _ (allCont_no_newpackage a1)
+  -- the next byte does not fit
+  obtain ⟨o1, o2, o3, o4⟩ := feed_stuffByte_full ctx h
+    { r with state := .s1, crc := pre.foldl strmStep 0xFF#8, line := pre } x rfl (by simp; omega)
+  -- the rest of the body is ignored, the closing marker delivers nothing
+  have hpost : ∀ b ∈ post.flatMap (stuffByte ctx), b ≠ ctx.start := by
+    intro b hb
+    obtain ⟨c, _, hc⟩ := List.mem_flatMap.mp hb
+    exact (stuffByte_no_marker ctx h c b hc).1
+  obtain ⟨g1, g2⟩ := garbage_run ctx _ (post.flatMap (stuffByte ctx)) o2 hpost
+  have hlast := idle_no_delivery ctx _ ctx.stop g1
+  simp only [feed, delivered, newchar_start_idle ctx r hr, feed_append, delivered_append, e1,
+    List.nil_append, d1, o3, g2]
+  refine ⟨?_, ?_⟩
+  · simp only [List.mem_cons, List.mem_append]
+    exact Or.inr (Or.inr (Or.inl o1))
+  · have hlast' := hlast
+    simp only [NEWPACKAGE] at hlast'
+    simp only [CONTINUE, NEWPACKAGE, show ¬ ((0 : Int) = 1) by decide, if_false]
+    exact if_neg hlast'
+
+/-! ### resynchronisation -/
+
+/-- START ≠ STOP: after ANY garbage prefix `g` (fed to any receiver `r`,
+whatever state that leaves it in), the well-formed frames that follow are all
+delivered, from the first one, in order, and nothing else is delivered after
+the garbage. -/
+theorem resync_distinct (ctx : Ctx) (h : ctx.WF) (hne : ctx.start ≠ ctx.stop) (r : Recv)
+    (g : List Byte) (ps : List (List Byte)) (hcap : ∀ p ∈ ps, p.length + 2 ≤ r.cap) :
+    delivered ctx r (g ++ ps.flatMap (encode ctx)) = delivered ctx r g ++ ps := by
+  rw [delivered_append]
+  congr 1
+  have hc : (feed ctx r g).1.cap = r.cap := feed_cap ctx r g
+  generalize (feed ctx r g).1 = r' at hc
+  induction ps generalizing r' with
+  | nil => simp [delivered]
+  | cons p ps ih =>
+    obtain ⟨d, s0, cp⟩ := frame_any_state_distinct ctx h hne r' p (by rw [hc]; exact hcap p (by simp))
+    simp only [List.flatMap_cons, delivered_append, d]
+    rw [ih (fun q hq => hcap q (by simp [hq])) _ (by rw [cp, hc])]
+    simp
+
+/-- START = STOP (v0 alphabet, after `fix: … resynchronises when start and stop
+markers coincide`): after any garbage prefix, of the frames p₁ p₂ … that follow
+at most the first is lost: what is delivered after the garbage is `junk ++
+[p₂, …]` where `junk` is at most one packet (p₁ itself, or a packet completed
+by p₁'s opening marker, or nothing). -/
+theorem resync_coincide (ctx : Ctx) (h : ctx.WF) (he : ctx.start = ctx.stop) (r : Recv)
+    (g : List Byte) (p1 : List Byte) (ps : List (List Byte))
+    (hcap : ∀ p ∈ p1 :: ps, p.length + 2 ≤ r.cap) :
+    ∃ junk, junk.length ≤ 1 ∧
+      delivered ctx r (g ++ (p1 :: ps).flatMap (encode ctx)) = delivered ctx r g ++ junk ++ ps := by
+  have hc : (feed ctx r g).1.cap = r.cap := feed_cap ctx r g
+  obtain ⟨j1, rd, cp⟩ := first_frame_coincide ctx h he (feed ctx r g).1 p1
+    (by rw [hc]; exact hcap p1 (by simp))
+  refine ⟨delivered ctx (feed ctx r g).1 (encode ctx p1), j1, ?_⟩
+  rw [delivered_append, List.flatMap_cons, delivered_append]
+  rw [frames_from_ready ctx h _ rd ps (by intro q hq; rw [cp, hc]; exact hcap q (by simp [hq]))]
+  simp
+
+/-- when the receiver is between frames or primed (e.g. freshly initialised),
+nothing is lost even when the markers coincide -/
+theorem frames_delivered_from_init (ctx : Ctx) (h : ctx.WF) (cap : Nat) (ps : List (List Byte))
+    (hcap : ∀ p ∈ ps, p.length + 2 ≤ cap) :
+    delivered ctx (Recv.init cap) (ps.flatMap (encode ctx)) = ps :=
+  frames_from_ready ctx h (Recv.init cap) (Or.inl (Or.inl rfl)) ps hcap
+
+-- non-vacuity: the shipped alphabets satisfy the hypotheses of the two resync theorems
+example : Ctx.v1.WF ∧ Ctx.v1.start ≠ Ctx.v1.stop := by decide
+example : Ctx.v0.WF ∧ Ctx.v0.start = Ctx.v0.stop := by decide
+
+/-- historical witness: the stream of C05-v0-never-resyncs. On the repaired
+model the second and third frame after the garbage `55 AC 66` are delivered. -/
+theorem resync_v0_example :
+    delivered Ctx.v0 (Recv.init 8)
+      ([0x55#8, 0xAC#8, 0x66#8] ++ [[0x41#8], [0x42#8], [0x43#8]].flatMap (encode Ctx.v0)) =
+      [[0x42#8], [0x43#8]] := by decide +kernel
+
+/-! ### legacy receiver (gstuff_autorecv_newchar_v1) -/
+
+theorem legacy_bounds (cap : Nat) (bs : List Byte) :
+    (lfeed (LRecv.init cap) bs).1.line.length ≤ cap - 1 ∧ (lfeed (LRecv.init cap) bs).1.cap = cap := by
+  have h := lfeed_lineOK (LRecv.init cap) bs (by simp [LLineOK, LRecv.init])
+  have hc := lfeed_cap (LRecv.init cap) bs
+  simp only [LLineOK, hc] at h
+  exact ⟨h, hc⟩
+
+/-- Legacy resynchronisation (start = stop = AC): after ANY garbage prefix `g`
+and the first frame `p₁`, every following frame is delivered intact and in
+order; the deliveries end with exactly `[p₂, …]` (packet = line minus its
+trailing CRC byte, the legacy convention). -/
+theorem legacy_resync (cap : Nat) (g : List Byte) (p1 : List Byte) (ps : List (List Byte))
+    (hcap : ∀ p ∈ ps, p.length + 2 ≤ cap) :
+    ∃ junk, ldelivered (LRecv.init cap) (g ++ (p1 :: ps).flatMap encodeLeg) = junk ++ ps := by
+  -- everything up to and including p₁'s closing marker
+  have hsplit : g ++ (p1 :: ps).flatMap encodeLeg =
+      ((g ++ legStart :: lframeBody p1) ++ [legStart]) ++ ps.flatMap encodeLeg := by
+    simp [encodeLeg_eq]
+  rw [hsplit, ldelivered_append]
+  refine ⟨ldelivered (LRecv.init cap) ((g ++ legStart :: lframeBody p1) ++ [legStart]), ?_⟩
+  congr 1
+  have hgood : LGood (lfeed (LRecv.init cap) (g ++ legStart :: lframeBody p1)).1 :=
+    lfeed_good _ _ (by simp [LGood, LRecv.init])
+  have hready : LReady (lfeed (LRecv.init cap) ((g ++ legStart :: lframeBody p1) ++ [legStart])).1 := by
+    rw [lfeed_append]; simp only [lfeed]
+    exact lready_after_marker _ hgood
+  apply lframes_from_ready _ hready
+  intro q hq
+  rw [lfeed_cap]; exact hcap q hq
+
+/-- from a freshly initialised legacy receiver every frame is delivered, from the first -/
+theorem legacy_frames_from_init (cap : Nat) (ps : List (List Byte)) (hcap : ∀ p ∈ ps, p.length + 2 ≤ cap) :
+    ldelivered (LRecv.init cap) (ps.flatMap encodeLeg) = ps :=
+  lframes_from_ready (LRecv.init cap) (Or.inl rfl) ps hcap
+
+/-
+  Legacy SOUNDNESS.  Full statement (as for `recv_sound`): a packet is only
+  delivered for raw bytes that follow a start marker.  FALSE for the legacy
+  receiver, which has no hunt state — recorded finding C05-legacy-no-hunt:
+-/
+/-- witness: `41 crc AC` with no start marker at all is delivered as the packet [41] -/
+theorem legacy_no_hunt_witness :
+    sinceLastStart legStart [0x41#8, strmcrc8 0xFF#8 [0x41#8]] = none ∧
+    ldelivered (LRecv.init 16) [0x41#8, strmcrc8 0xFF#8 [0x41#8], legStart] = [[0x41#8]] := by
+  decide +kernel
+
+/-- witness: after a DATA_ERROR (invalid escape) the bytes that follow are accumulated
+without waiting for a start marker: `AC AD 00 41 crc AC` delivers [41] although the
+bytes since the last start marker (`AD 00 41 crc`) do not unescape -/
+theorem legacy_no_hunt_after_error_witness :
+    ldelivered (LRecv.init 16) [legStart, legStub, 0x00#8, 0x41#8, strmcrc8 0xFF#8 [0x41#8], legStart] = [[0x41#8]] ∧
+    unescape ⟨legStart, legStart, legStub, legStubStart, legStubStart, legStubStub⟩
+      [legStub, 0x00#8, 0x41#8, strmcrc8 0xFF#8 [0x41#8]] = none := by
+  decide +kernel
+
 end Igris.Gstuff
